@@ -343,3 +343,162 @@ def dependency_walk_total(chk, rid):
          '%s: a predicate called only below such a key (e.g. inside a list literal) is '
          'not a dependency any more - a functor application leaves it un-substituted, '
          'a recursion does not cover it' % '; '.join(problems[:2]), fi=bw)
+
+
+# engines whose SELECT attaches an aggregate to the OUTER query when its
+# argument mentions outer columns only (SQL standard scoping): their dialect
+# must entangle the aggregated value with a variable of the combine
+ENTANGLING_ENGINES = ('sqlite', 'psql', 'duckdb')
+
+
+def dialect_entangles(chk, rid, engines=ENTANGLING_ENGINES):
+  """<Dialect>.DecorateCombineRule returns the rule decorated by the
+  module-level DecorateCombineRule on EVERY path - for the named engines, and
+  for any dialect that decorates on some path (a dialect that decorates one
+  combine and not another is wrong for one of them)."""
+  from sa import templates
+  from sa.pathrules import FnView
+  repo = chk.repo
+  m = repo.by_name('dialects')
+  n_ok = 0
+  for eng, cls in sorted(templates.dialect_classes(repo).items()):
+    fi = repo.lookup_method(m, cls, 'DecorateCombineRule')
+    if fi is None:
+      raise AnalysisError('dialect %s has no DecorateCombineRule' % cls)
+    v = FnView.of(repo, fi)
+    rets = [(n, r) for n, r in v.returns() if r.value is not None]
+    def decorated(r):
+      e = v.expand(r.value, 3)
+      return any(isinstance(c, ast.Call) and 'dialects.DecorateCombineRule' in repo.resolve(fi, c)
+                 for c in ast.walk(e))
+    some = [r for n, r in rets if decorated(r)]
+    raw = [r for n, r in rets if not decorated(r)]
+    if eng in engines or some:
+      n_ok += 1
+      chk.ob(rid, bool(some) and not raw, None,
+             'dialect %s entangles every combine (aggregate scope)' % eng,
+             '%s.DecorateCombineRule returns the combine undecorated on some path (`%s`): '
+             'when the aggregated expression mentions outer columns only, the engine '
+             'attaches the aggregate to the outer SELECT - Sum/List/Min ... run over the '
+             'outer rows' % (cls, norm(raw[0], 50) if raw else 'no decorated return'),
+             fi=fi, node=raw[0] if raw else None)
+  if n_ok < len(engines):
+    raise AnalysisError('only %d entangling dialects recognised' % n_ok)
+
+
+def infix_operators(repo):
+  """The default operator list of parse.ParseInfix in the order the splitter
+  tries them (first = binds loosest)."""
+  from sa import tables
+  m = repo.by_name('parse')
+  pi = m.func('ParseInfix')
+  best = None
+  def lists_in(v, depth=0):
+    for l in ast.walk(v):
+      if isinstance(l, (ast.List, ast.Tuple)):
+        yield l
+      elif isinstance(l, ast.Name) and depth < 3:
+        try:
+          d = m.module_assign(l.id)
+        except AnalysisError:
+          d = None
+        if d is not None:
+          for y in lists_in(d, depth + 1):
+            yield y
+  for x in walk_local(pi.node):
+    if isinstance(x, ast.Assign) and dotted(x.targets[0]) == 'operators':
+      for l in lists_in(x.value):
+        if len(l.elts) > 10 and (best is None or len(l.elts) > len(best[0])):
+          try:
+            best = (tables.const_value(l), x)
+          except AnalysisError:
+            pass
+  if best is None:
+    raise AnalysisError('ParseInfix: default operator list not recognised')
+  return list(best[0]), pi, best[1]
+
+
+# (tried earlier, tried later, what goes wrong otherwise)
+OPERATOR_ORDER = [
+    ('||', '&&', '`a || b && c` groups as (a || b) && c'),
+    ('&&', '==', '`a == b && c == d` is split inside a comparison'),
+    ('==', '+', '`a == b + c` groups as (a == b) + c'),
+    ('<', '+', '`a < b + c` groups as (a < b) + c'),
+    ('>', '+', '`a > b + c` groups as (a > b) + c'),
+    ('+', '-', '`a - b + c` groups as a - (b + c)'),
+    ('+', '*', '`a + b * c` groups as (a + b) * c'),
+    ('-', '*', '`a - b * c` groups as (a - b) * c'),
+    ('-', '/', '`a - b / c` groups as (a - b) / c'),
+    ('*', '/', '`a / b * c` groups as a / (b * c)'),
+    ('*', '^', '`a * b ^ c` groups as (a * b) ^ c'),
+    # an operator that is a prefix / part of another is tried after it
+    ('<=', '<', '`a <= b` is split at `<`'),
+    ('>=', '>', '`a >= b` is split at `>`'),
+    ('==', '=', '`a == b` is split at `=`'),
+    ('!=', '=', '`a != b` is split at `=`'),
+    ('<=', '=', '`a <= b` is split at `=`'),
+    ('>=', '=', '`a >= b` is split at `=`'),
+    ('->', '-', '`a -> b` is split at `-`'),
+    ('->', '>', '`a -> b` is split at `>`'),
+    ('++?', '++', '`a ++? b` is split at `++`'),
+    ('++', '+', '`a ++ b` is split at `+`'),
+    (' is not ', ' is ', '`a is not null` is split at ` is `'),
+]
+
+
+def operator_grouping(chk, rid):
+  ops, pi, node = infix_operators(chk.repo)
+  pos = {o: i for i, o in enumerate(ops)}
+  n = 0
+  for a, b, wrong in OPERATOR_ORDER:
+    if a not in pos or b not in pos:
+      raise AnalysisError('ParseInfix: operator %r / %r not in the default list' % (a, b))
+    n += 1
+    chk.ob(rid, pos[a] < pos[b], None,
+           'the splitter tries %r before %r' % (a, b),
+           '%r is tried first: %s - the expression denotes another value than the '
+           'one every reader computes' % (b, wrong), fi=pi, node=node)
+  return n
+
+
+def translation_not_memoised(chk, rid):
+  """The SQL of a rule is a function of the rule AND of the vocabulary of the
+  query it is embedded in (the aliases it may refer to).  What TranslateRule
+  returns is therefore computed for this call; a value taken from a store
+  that outlives the call is acceptable only under a key that mentions every
+  argument the translation is given."""
+  from sa.pathrules import FnView
+  repo = chk.repo
+  tr = FnView(repo, 'universe.SubqueryTranslator.TranslateRule')
+  single = 'universe.LogicaProgram.SingleRuleSql'
+  needed = set()
+  for n, c in tr.need_calls(single):
+    for a_ in list(c.args) + [k.value for k in c.keywords]:
+      d = dotted(a_)
+      if d in tr.fi.params and d not in ('self', 'is_combine'):
+        needed.add(d)
+  bad = None
+  n_ret = 0
+  for n, r in tr.returns():
+    if r.value is None:
+      continue
+    n_ret += 1
+    e = tr.expand(r.value, 3)
+    if any(isinstance(c, ast.Call) and single in repo.resolve(tr.fi, c) for c in ast.walk(e)):
+      continue
+    subs = [x for x in ast.walk(e) if isinstance(x, ast.Subscript)]
+    for x in subs:
+      key = tr.expand(x.slice, 4)
+      names = {dotted(y) for y in ast.walk(key) if isinstance(y, ast.Name)}
+      if not needed <= names:
+        bad = (r, 'key `%s` lacks %s' % (norm(x.slice, 40), sorted(needed - names)))
+    if not subs:
+      bad = (r, '`%s` is not a translation made by this call' % norm(r.value, 40))
+  if not n_ret:
+    raise AnalysisError('TranslateRule: no return recognised')
+  chk.ob(rid, bad is None, None,
+         'TranslateRule returns SQL translated for this call (arguments %s)' % sorted(needed),
+         'TranslateRule returns remembered SQL: %s - the text was compiled for another '
+         'enclosing query, its alias.column references name tables that are not in '
+         'scope here (or the wrong ones)' % (bad[1] if bad else ''), fi=tr.fi,
+         node=bad[0] if bad else None)
